@@ -462,4 +462,191 @@ theorem k_cbp_block (lum : List Nat) (w h subW subH fuel : Nat) (hw : 8 ≤ w) (
       simp only []
       exact table_write subW subH done acc hx _
 
+/-! ## rows and the whole table -/
+
+theorem bpRow_length (lum : Array Nat) (w ht y : Nat) (prev : Option (List Nat)) : ∀ (xs : List Nat) (acc row : List Nat),
+    bpRow lum w ht y prev xs acc = .ok row → row.length = acc.length + xs.length := by
+  intro xs
+  induction xs with
+  | nil => intro acc row he; simp only [bpRow, Except.ok.injEq] at he; subst he; simp
+  | cons x xs ih =>
+    intro acc row he
+    simp only [bpRow] at he
+    cases hs : scanBlock lum w (blockOffset x w) (blockOffset y ht) with
+    | error e => simp [hs] at he
+    | ok s =>
+      cases hn : neighboursOf prev acc x with
+      | error e => simp [hs, hn] at he
+      | ok nb =>
+        simp only [hs, hn] at he
+        rw [ih _ _ he]; simp; omega
+
+when_kernel Gzx.Gen.K17.calculateBlackPoints in
+/-- the blocks `acc.length … subW-1` of a row -/
+theorem k_cbp_rowLoop (lum : List Nat) (w h subW subH fuel : Nat) (hw : 8 ≤ w) (hh : 8 ≤ h) (hf : 10 ≤ fuel)
+    (done : List (List Nat)) (hrows : ∀ r ∈ done, r.length = subW) : ∀ (n : Nat) (acc : List Nat), acc.length + n = subW →
+    loop (Gen.K17.calculateBlackPoints_body2 fuel (bytes lum) (w : Int) ((w : Int) - 8) ((done.length : Nat) : Int)
+        ((blockOffset done.length h : Nat) : Int)) 1 n ((acc.length : Nat) : Int) (tableOf subW subH done acc) =
+      match bpRow lum.toArray w h done.length done.getLast? (List.range' acc.length n) acc with
+      | .ok row => .next (tableOf subW subH done row)
+      | .error _ => .panic oob := by
+  intro n
+  induction n with
+  | zero => intro acc _; rfl
+  | succ n ih =>
+    intro acc hn
+    rw [loop_succ, k_cbp_block lum w h subW subH fuel hw hh hf done acc hrows (by omega), List.range'_succ]
+    simp only [bpRow, bpStep]
+    cases scanBlock lum.toArray w (blockOffset acc.length w) (blockOffset done.length h) with
+    | error e => rfl
+    | ok s =>
+      simp only []
+      cases neighboursOf done.getLast? acc acc.length with
+      | error e => rfl
+      | ok nb =>
+        simp only []
+        have := ih (acc ++ [blockBlackPoint s nb]) (by simp; omega)
+        simp only [List.length_append, List.length_cons, List.length_nil, Nat.zero_add] at this
+        rw [show ((acc.length : Nat) : Int) + 1 = ((acc.length + 1 : Nat) : Int) by omega]
+        exact this
+
+when_kernel Gzx.Gen.K17.calculateBlackPoints in
+/-- one row of the table: `blackPoints[y] = make([]int, subWidth)`, the clamped `yoffset`, the blocks -/
+theorem k_cbp_row (lum : List Nat) (w h subW subH fuel : Nat) (hw : 8 ≤ w) (hh : 8 ≤ h) (hf : 10 ≤ fuel)
+    (done : List (List Nat)) (hrows : ∀ r ∈ done, r.length = subW) (hy : done.length < subH) :
+    Gen.K17.calculateBlackPoints_body1 fuel (bytes lum) (subW : Int) (w : Int) ((h : Int) - 8) ((w : Int) - 8)
+        ((done.length : Nat) : Int) (tableB subH done) =
+      match bpRow lum.toArray w h done.length done.getLast? (List.range subW) [] with
+      | .ok row => .next (tableB subH (done ++ [row]))
+      | .error _ => .panic oob := by
+  simp only [Gen.K17.calculateBlackPoints_body1]
+  rw [mk_words _ subW rfl]
+  simp only [tryC_ok]
+  have hset : setRow (tableB subH done) ((done.length : Nat) : Int) (words (List.replicate subW 0)) = .ok (tableOf subW subH done []) := by
+    unfold setRow tableB tableOf
+    have h0 : ¬ (((done.length : Nat) : Int) < 0) := by omega
+    simp only [h0, if_false, Int.toNat_natCast]
+    have hl : done.length < (rows2 done ++ List.replicate (subH - done.length) ([] : List Int)).length := by
+      simp [rows2_length]; omega
+    simp only [hl, if_true]
+    congr 1
+    rw [List.set_append_right _ _ (by rw [rows2_length]; exact Nat.le_refl _), rows2_length, Nat.sub_self]
+    obtain ⟨k, hk⟩ : ∃ k, subH - done.length = k + 1 := ⟨subH - done.length - 1, by omega⟩
+    rw [hk, List.replicate_succ, List.set_cons_zero, show k + 1 - 1 = k by omega]
+    simp [bytes, words]
+  rw [hset]
+  simp only [tryC_ok]
+  rw [blockOffset_cast done.length h hh, show tripUp 0 (subW : Int) 1 = subW by rw [tripUp_one]; omega]
+  have hl := k_cbp_rowLoop lum w h subW subH fuel hw hh hf done hrows subW [] (by simp)
+  simp only [List.length_nil] at hl
+  have hl' : loop (Gen.K17.calculateBlackPoints_body2 fuel (bytes lum) (w : Int) ((w : Int) - 8) ((done.length : Nat) : Int)
+      ((blockOffset done.length h : Nat) : Int)) 1 subW 0 (tableOf subW subH done []) = _ := hl
+  rw [hl', List.range_eq_range']
+  cases hr : bpRow lum.toArray w h done.length done.getLast? (List.range' 0 subW) [] with
+  | error e => rfl
+  | ok row =>
+    simp only [next_thenC]
+    have hrl : row.length = subW := by
+      have := bpRow_length _ _ _ _ _ _ _ _ hr
+      simpa using this
+    congr 1
+    unfold tableOf tableB
+    rw [hrl, Nat.sub_self]
+    simp only [List.replicate_zero, List.append_nil, List.length_append, List.length_cons, List.length_nil]
+    rw [show subH - (done.length + (0 + 1)) = subH - done.length - 1 by omega]
+    simp [rows2]
+
+when_kernel Gzx.Gen.K17.calculateBlackPoints in
+/-- the rows `done.length … subH-1` -/
+theorem k_cbp_rows (lum : List Nat) (w h subW subH fuel : Nat) (hw : 8 ≤ w) (hh : 8 ≤ h) (hf : 10 ≤ fuel) :
+    ∀ (m : Nat) (done : List (List Nat)), done.length + m = subH → (∀ r ∈ done, r.length = subW) →
+    loop (Gen.K17.calculateBlackPoints_body1 fuel (bytes lum) (subW : Int) (w : Int) ((h : Int) - 8) ((w : Int) - 8)) 1 m
+        ((done.length : Nat) : Int) (tableB subH done) =
+      match bpRows lum.toArray w h subW (List.range' done.length m) done.getLast? done with
+      | .ok all => .next (tableB subH all)
+      | .error _ => .panic oob := by
+  intro m
+  induction m with
+  | zero => intro done _ _; rfl
+  | succ m ih =>
+    intro done hm hrows
+    rw [loop_succ, k_cbp_row lum w h subW subH fuel hw hh hf done hrows (by omega), List.range'_succ]
+    simp only [bpRows]
+    cases hr : bpRow lum.toArray w h done.length done.getLast? (List.range subW) [] with
+    | error e => rfl
+    | ok row =>
+      simp only []
+      have hrl : row.length = subW := by
+        have := bpRow_length _ _ _ _ _ _ _ _ hr
+        simpa using this
+      have := ih (done ++ [row]) (by simp; omega) (by
+        intro r hr'
+        rcases List.mem_append.mp hr' with h1 | h1
+        · exact hrows r h1
+        · simp only [List.mem_singleton] at h1; rw [h1]; exact hrl)
+      simp only [List.length_append, List.length_cons, List.length_nil, Nat.zero_add, List.getLast?_append, List.getLast?_singleton,
+        Option.some_or] at this
+      rw [show ((done.length : Nat) : Int) + 1 = ((done.length + 1 : Nat) : Int) by omega]
+      exact this
+
+when_kernel Gzx.Gen.K17.calculateBlackPoints in
+/-- `calculateBlackPoints(luminances, subWidth, subHeight, width, height)` = `Binarizer.bpRows` over all rows, for every image
+    of at least 8x8 pixels, any block counts, any luminance array and any fuel ≥ 10 -/
+theorem k_calculateBlackPoints_eq (lum : List Nat) (w h subW subH fuel : Nat) (hw : 8 ≤ w) (hh : 8 ≤ h) (hf : 10 ≤ fuel) :
+    Gen.K17.calculateBlackPoints fuel (bytes lum) subW subH w h =
+      match bpRows lum.toArray w h subW (List.range subH) none [] with
+      | .ok all => .ok (rows2 all)
+      | .error _ => .error oob := by
+  simp only [Gen.K17.calculateBlackPoints]
+  have hmk : mk2 (subH : Int) = .ok (tableB subH []) := by
+    unfold mk2 tableB
+    have : ¬ ((subH : Int) < 0) := by omega
+    simp [this, rows2]
+  rw [hmk]
+  simp only [tryR_ok]
+  rw [show tripUp 0 (subH : Int) 1 = subH by rw [tripUp_one]; omega]
+  have hl := k_cbp_rows lum w h subW subH fuel hw hh hf subH [] (by simp) (by simp)
+  simp only [List.length_nil, List.getLast?_nil] at hl
+  have hl' : loop (Gen.K17.calculateBlackPoints_body1 fuel (bytes lum) (subW : Int) (w : Int) ((h : Int) - 8) ((w : Int) - 8)) 1 subH
+      0 (tableB subH []) = _ := hl
+  rw [hl', List.range_eq_range']
+  cases hr : bpRows lum.toArray w h subW (List.range' 0 subH) none [] with
+  | error e => rfl
+  | ok all =>
+    simp only [next_thenR]
+    -- all rows are there: no nil rows are left
+    have hlen : ∀ (ys : List Nat) (prev : Option (List Nat)) (acc all : List (List Nat)),
+        bpRows lum.toArray w h subW ys prev acc = .ok all → all.length = acc.length + ys.length := by
+      intro ys
+      induction ys with
+      | nil => intro prev acc all he; simp only [bpRows, Except.ok.injEq] at he; subst he; simp
+      | cons y ys ih =>
+        intro prev acc all he
+        simp only [bpRows] at he
+        cases hb : bpRow lum.toArray w h y prev (List.range subW) [] with
+        | error e => simp [hb] at he
+        | ok row => simp only [hb] at he; rw [ih _ _ _ he]; simp; omega
+    have := hlen _ _ _ _ hr
+    simp only [List.length_nil, List.length_range', Nat.zero_add] at this
+    unfold tableB
+    rw [this, Nat.sub_self]
+    simp
+
+when_kernel Gzx.Gen.K17.calculateBlackPoints in
+/-- **calculateBlackPoints, Go source to model**: with the block counts of the hybrid method the regenerated function returns the
+    table of `Binarizer.calculateBlackPoints` (or the index panic where the model's read fails) -/
+theorem k_calculateBlackPoints_model (lum : List Nat) (w h fuel : Nat) (hw : 8 ≤ w) (hh : 8 ≤ h) (hf : 10 ≤ fuel) :
+    Gen.K17.calculateBlackPoints fuel (bytes lum) (subDim w) (subDim h) w h =
+      match Binarizer.calculateBlackPoints lum.toArray w h with
+      | .ok all => .ok (rows2 all)
+      | .error _ => .error oob := by
+  rw [k_calculateBlackPoints_eq lum w h _ _ fuel hw hh hf]
+  rfl
+
+-- non-vacuity: a 16x8 image, left block uniformly 200 (low contrast: black point 100), right block with values 0 / 255
+-- (average 127, then the next block sees its left neighbour only in later rows)
+when_kernel Gzx.Gen.K17.calculateBlackPoints in
+example : Gen.K17.calculateBlackPoints 10 (bytes ((List.replicate 8 (List.replicate 8 200 ++ (List.replicate 4 0 ++ List.replicate 4 255))).flatten))
+    2 1 16 8 = .ok [[100, 127]] := by decide +kernel
+
 end Gzx.Obligations.K17d
